@@ -66,6 +66,9 @@ type Ctx struct {
 	fromReached bool
 
 	sinceRecycleCheck int
+
+	// NoViolationCap disables the "stop after 40 violations" rule (engines whose known findings are many).
+	NoViolationCap bool
 }
 
 // Thorough reports whether the thorough tier was requested.
@@ -211,7 +214,7 @@ func (c *Ctx) Cases(stream string, n int, fn func(i int, rng *rand.Rand)) {
 			continue
 		}
 		c.mu.Lock()
-		tooMany := c.viols >= 40
+		tooMany := c.viols >= 40 && !c.NoViolationCap
 		c.mu.Unlock()
 		if tooMany {
 			// enough witnesses: do not spend the budget re-detecting the same failure
